@@ -275,6 +275,8 @@ impl CompactionHandover {
             }
 
             index.save(&self.shard_dir).await?;
+            #[cfg(sneldb_verif)]
+            crate::verif_hooks::vp("cp_index_saved");
 
             if tracing::enabled!(tracing::Level::INFO) {
                 tracing::info!(
@@ -309,6 +311,8 @@ impl CompactionHandover {
         );
 
         self.invalidate_caches(&drained_labels);
+        #[cfg(sneldb_verif)]
+        crate::verif_hooks::vp("cp_live_updated");
 
         Ok(drained_labels)
     }
@@ -386,6 +390,8 @@ impl CompactionHandover {
             }
         }
 
+        #[cfg(sneldb_verif)]
+        crate::verif_hooks::vp("cp_reclaim_moved");
         for label in &retired {
             let path = batch_dir.join(label);
             match fs::remove_dir_all(&path) {
@@ -398,6 +404,8 @@ impl CompactionHandover {
             }
         }
 
+        #[cfg(sneldb_verif)]
+        crate::verif_hooks::vp("cp_reclaim_deleted");
         match fs::remove_dir(&batch_dir) {
             Ok(_) => {
                 debug!(target: "compaction_handover::reclaim", shard = shard_id, "Cleaned empty reclaim batch directory")
